@@ -100,6 +100,19 @@ CLAIMED = {
         note="Trusted: TLC, the transcription of the documented rules into the TLA+ operators (independent of encutils' chain of ifs). "
              "Responses without Content-Type header, missing response objects and documents shorter than four characters are "
              "outside the table (statement silent / pinned otherwise by the existing tests)."),
+    "C07": dict(
+        technique="TLA+ table of CSS 2.1 section 4.4 over byte classes with allowed-answer sets and the 'unknown yet, never wrong' "
+                  "prefix rule (CodecContract), input spaces enumerated completely by TLC (Codec.tla); every row executed on "
+                  "cssutils.codec (detectors, stateless encode/decode, incremental and stream classes); TLC trace monitor",
+        text="Exhaustive: all 22621 sequences of <=4 byte classes x final/non-final for the byte detector, both detectors on a charset "
+             "rule cut at every length, 6 text shapes x 12 encodings x charset rule none/same/other x given/auto for the round "
+             "trip, and for the four chunked classes x 11 encodings x 4 texts every cut set of <=1 (quick) / <=2 (thorough) cuts in "
+             "the first 26/30 units plus one-unit-at-a-time; TLC checks membership in the allowed answers, that a non-final answer "
+             "is allowed for EVERY extension, charset-name rewriting, and concatenated chunk outputs = one-shot output.",
+        design_ref="DESIGN.md section 5 C07",
+        note="Trusted: TLC, transcription of the CSS 2.1 table, concrete bytes chosen per class. Texts an encoding cannot represent and "
+             "auto-detection without BOM/@charset are outside the quantifier. Three known findings (input ending inside the charset "
+             "rule through the stream classes; detectencoding_unicode with final=True, pinned by an existing test)."),
 }
 PENDING = "check not built yet in this round (see DESIGN.md section 10 build order); no claim is made"
 NOT_APPLICABLE = {}
